@@ -452,3 +452,26 @@ func loadKnownCached(id string) map[string]knownFinding {
 	knownCache[id] = m
 	return m
 }
+
+// Emergency reports a violation from a situation the runner cannot return from (e.g. a goroutine
+// of the code under test that never ends keeps a synctest bubble alive forever): the scenario is
+// written as a replay file, the VIOLATION line is printed and the process exits with status 1.
+func Emergency(id, name, sig string, scenario any, format string, args ...any) {
+	js, _ := json.Marshal(scenario)
+	msg := fmt.Sprintf(format, args...)
+	dir := envOr("VERIF_FOUND_DIR", filepath.Join(verifRoot, "replays", id, "found"))
+	_ = os.MkdirAll(dir, 0o755)
+	p := filepath.Join(dir, fmt.Sprintf("%s-%s.json", name, scenarioHash(js)))
+	rf := replayFile{Property: id, Check: name, Message: msg, Signature: sig, Scenario: js}
+	b, _ := json.MarshalIndent(rf, "", " ")
+	_ = os.WriteFile(p, b, 0o644)
+	if sd := os.Getenv("VERIF_STATS_DIR"); sd != "" {
+		st := Stats{Property: id, Check: name, Requested: 1, Evaluations: 1, NonTrivial: []string{scenarioHash(js)}, Labels: map[string]int{"emergency-exit": 1},
+			KnownHits: map[string]int{}, Observations: map[string]int{}, Violations: []violationRec{{Check: name, Message: msg, Signature: sig, Replay: p}}}
+		sb, _ := json.Marshal(st)
+		_ = os.MkdirAll(sd, 0o755)
+		_ = os.WriteFile(filepath.Join(sd, fmt.Sprintf("%s.%s.emergency.%d.json", id, name, os.Getpid())), sb, 0o644)
+	}
+	fmt.Printf("VIOLATION property=%s replay=%s\n%s/%s: %s\n", id, p, id, name, msg)
+	os.Exit(1)
+}
